@@ -72,7 +72,7 @@ def id_term(mf):
     return fn, ex, c, t, terms, panics, entry
 
 
-def run_o1(mf, tier):
+def _setup(mf):
     fn, ex, c, t, terms, panics, entry = id_term(mf)
     in_range = [(p, term) for p, term in terms if "clock in range" in p.events]
     if len(in_range) != 1 or in_range[0][1] is None:
@@ -83,15 +83,37 @@ def run_o1(mf, tier):
     id1 = z3.substitute(term, (c, c1), (t, t1))
     id2 = z3.substitute(term, (c, c2), (t, t2))
     sane = [t1 >= 0, t2 >= 0, z3.ULT(t1, bv(1 << 62, 64)), z3.ULT(t2, bv(1 << 62, 64)), z3.ULT(c1, bv(1 << 31, 32)), z3.ULT(c2, bv(1 << 31, 32))]
-    failed, witness_text, reproduced, samples = [], [], None, []
-    # S1: same statement (counter strictly larger), clock does not go backwards => ids strictly increase
-    s1 = sane + [z3.UGT(c2, c1), t2 >= t1, z3.Not(z3.UGT(id2, id1))]
-    if ex.feasible(s1):
+    return fn, ex, entry, term, terms, panics, (c1, c2, t1, t2, id1, id2, sane)
+
+
+def _result(fn, ex, entry, term, terms, failed, samples, witness_text=None, reproduced=None):
+    res = {"paths": len(terms), "queries": ex.queries, "solver_time_s": round(ex.solver_time, 3),
+           "sample": samples + ["id term: " + str(z3.simplify(term))[:120]], "functions": [fn.header[:80] + " (id expression, entry %s)" % entry]}
+    if failed:
+        res.update({"status": "fail", "failed": sorted(set(failed)), "reason": "; ".join(sorted(set(failed)))[:400],
+                    "witness_text": witness_text or [], "reproduced": reproduced})
+    else:
+        res["status"] = "pass"
+    return res
+
+
+def run_same_statement(mf, tier):
+    """S1 (must hold): inside one statement with a clock that never goes backwards, ids strictly increase."""
+    fn, ex, entry, term, terms, panics, (c1, c2, t1, t2, id1, id2, sane) = _setup(mf)
+    failed = []
+    if ex.feasible(sane + [z3.UGT(c2, c1), t2 >= t1, z3.Not(z3.UGT(id2, id1))]):
         failed.append("two nodes of one statement get the same or a decreasing id although the clock never went backwards")
-    samples.append("S1 same statement, monotone clock: id(c2,t2) > id(c1,t1) for c2 > c1, t2 >= t1")
-    # S2: a later statement (its counter restarts), clock does not go backwards => ids differ
+    # and the id must actually depend on the counter (otherwise equal clock readings collide inside a statement)
+    if ex.feasible(sane + [c2 == c1 + 1, t2 == t1, id1 == id2]):
+        failed.append("two consecutive nodes of one statement get the same id when the clock reading is unchanged")
+    return _result(fn, ex, entry, term, terms, failed, ["S1 same statement, monotone clock: id(c2,t2) > id(c1,t1) for c2 > c1, t2 >= t1"])
+
+
+def run_across_statements(mf, tier):
+    """S2: a later statement (its counter restarts), clock never goes backwards => ids differ."""
+    fn, ex, entry, term, terms, panics, (c1, c2, t1, t2, id1, id2, sane) = _setup(mf)
+    failed, witness_text, reproduced = [], [], None
     s2 = sane + [t2 >= t1, id1 == id2]
-    samples.append("S2 two statements, monotone clock: id(c1,t1) != id(c2,t2) for t2 >= t1 (counters unrelated)")
     if ex.feasible(s2):
         m = ex.model(s2 + [z3.ULE(c1, 3), c2 == 0, z3.UGT(c1, 0)]) or ex.model(s2)
         vc1, vc2 = m.eval(c1, model_completion=True).as_long(), m.eval(c2, model_completion=True).as_long()
@@ -104,23 +126,24 @@ def run_o1(mf, tier):
             rep, lines = witness.run(["id-collision", str(vc1)], clock_seq=seq)
             witness_text += ["replayed with a scripted wall clock (LD_PRELOAD shim), readings (ns) %s:" % seq] + lines
             reproduced = rep
-    # S3: clock stepping backwards inside one statement
-    s3 = sane + [c2 == c1 + 1, id1 == id2]
-    samples.append("S3 one statement, clock may step backwards: id(c,t1) != id(c+1,t2)")
-    if ex.feasible(s3):
+    return _result(fn, ex, entry, term, terms, failed, ["S2 two statements, monotone clock: id(c1,t1) != id(c2,t2) for t2 >= t1 (counters unrelated)"],
+                   witness_text, reproduced)
+
+
+def run_clock_steps_back(mf, tier):
+    """S3: the clock may step backwards inside one statement; S4: extreme clock values must not panic."""
+    fn, ex, entry, term, terms, panics, (c1, c2, t1, t2, id1, id2, sane) = _setup(mf)
+    failed = []
+    if ex.feasible(sane + [c2 == c1 + 1, id1 == id2]):
         failed.append("two consecutive nodes of one statement get the same id when the clock steps back by one nanosecond")
     for pp in panics:
         failed.append("id computation can panic (arithmetic overflow) for an extreme clock value [%s]" % pp.signature())
-    res = {"paths": len(terms), "queries": ex.queries, "solver_time_s": round(ex.solver_time, 3),
-           "sample": samples + ["id term: " + str(z3.simplify(term))[:120]], "functions": [fn.header[:80] + " (id expression, entry %s)" % entry]}
-    if failed:
-        res.update({"status": "fail", "failed": sorted(set(failed)), "reason": "; ".join(sorted(set(failed)))[:400],
-                    "witness_text": witness_text, "reproduced": reproduced})
-    else:
-        res["status"] = "pass"
-    return res
+    return _result(fn, ex, entry, term, terms, failed, ["S3 one statement, clock may step backwards: id(c,t1) != id(c+1,t2)",
+                                                        "S4 no arithmetic panic for any clock value"])
 
 
 TARGETS = [
-    {"name": "c32_o1_q_external_id_symbolic_clock", "crate": "nervusdb-query", "run": run_o1},
+    {"name": "c32_o1_q_ids_increase_within_statement", "crate": "nervusdb-query", "run": run_same_statement},
+    {"name": "c32_o1_q_ids_unique_across_statements", "crate": "nervusdb-query", "run": run_across_statements},
+    {"name": "c32_o1_q_ids_survive_clock_anomalies", "crate": "nervusdb-query", "run": run_clock_steps_back},
 ]
